@@ -655,7 +655,7 @@ func (w *c09World) credSummary(c *c09Cred) string {
 		}
 		return "opaque-ticket"
 	}
-	cs, ok := w.px.P.sessionStore.(*cookiestore.SessionStore)
+	cs, ok := verifSessionStore(w.px.P).(*cookiestore.SessionStore)
 	if !ok {
 		return "opaque"
 	}
